@@ -2,7 +2,7 @@
 import os
 
 from . import core
-from .rules import stdio, cert, mark, exact, optstore, inval, idx, atomic, own, tokens, idxclass, copy, pair, structfree, buf, div, counter, sentinel, appendinit, verdict, basismap, zerotol, escape, lenclass, djsym, ndet, useb4check, norms, opencheck, shell, esolver, errlost, rescan, certdep, neverset, fmt, defaults, scratch, fullscan, slotleak, floatidx, sensemap, trunc, vtypezero, allockind, intdiv, strscan, localfield, rawidx, argcap, staleptr, condalloc, lpstate, vstattype, alphabet, outleak, fieldleak, lenm1, basisdim, dupmark, rowcopy, normlen, logonly, decacc
+from .rules import stdio, cert, mark, exact, optstore, inval, idx, atomic, own, tokens, idxclass, copy, pair, structfree, buf, div, counter, sentinel, appendinit, verdict, basismap, zerotol, escape, lenclass, djsym, ndet, useb4check, norms, opencheck, shell, esolver, errlost, rescan, certdep, neverset, fmt, defaults, scratch, fullscan, slotleak, floatidx, sensemap, trunc, vtypezero, allockind, intdiv, strscan, localfield, rawidx, argcap, staleptr, condalloc, lpstate, vstattype, alphabet, outleak, fieldleak, lenm1, basisdim, dupmark, rowcopy, normlen, logonly, decacc, nzcount
 from .effects import Effects
 
 FIX = os.path.join(os.path.dirname(os.path.abspath(__file__)), "fixtures")
@@ -333,7 +333,7 @@ PROPS = {
     },
     "C16": {
         "rules": [lambda prog, tier: copy.run_shallow(prog), lambda prog, tier: copy.run_params(prog), lambda prog, tier: copy.run_strflags(prog),
-                  lambda prog, tier: copy.run_clobber(prog),
+                  lambda prog, tier: copy.run_clobber(prog), lambda prog, tier: nzcount.run(prog, shared_eff(prog)),
                   lambda prog, tier: exact.run(prog, {"COPY": {"roots": ["QScopy_prob_mpq_dbl", "QScopy_prob_mpq_mpf"], "closure": False}},
                                                exceptions={("QScopy_prob_mpq_dbl", "mpq_get_d"): "the conversion to double itself: mpq_get_d truncates to the nearest "
                                                            "double toward zero, within one unit in the last place",
@@ -411,7 +411,7 @@ PROPS = {
                   lambda prog, tier: tokens.run_mps(prog),
                   lambda prog, tier: tokens.run_sections(prog, "mpq_ILLwrite_mps", {"ENDATA"}, print_funcs={"mpq_ILLprint_report": 1}, token_ok=lambda t: t.isupper() and len(t) >= 2),
                   lambda prog, tier: idxclass.run(prog, scope_units=("mps_mpq.c", "rawlp_mpq.c")),
-                  lambda prog, tier: sentinel.run(prog), lambda prog, tier: appendinit.run(prog), lambda prog, tier: appendinit.run_repack(prog), lambda prog, tier: rescan.run(prog), lambda prog, tier: defaults.run(prog),
+                  lambda prog, tier: sentinel.run(prog), lambda prog, tier: appendinit.run(prog), lambda prog, tier: appendinit.run_repack(prog), lambda prog, tier: appendinit.run_remap(prog, shared_eff(prog)), lambda prog, tier: rescan.run(prog), lambda prog, tier: defaults.run(prog),
                   lambda prog, tier: fullscan.run(prog, ["mpq_ILLwrite_mps"], ("mps_mpq.c",), floor=6),
                   lambda prog, tier: fullscan.run_rowfilter(prog), lambda prog, tier: trunc.run(prog)],
         "technique": "lossy-conversion sink census over writer/reader closures; table agreement (section names, bound mnemonics, row-type "
@@ -554,7 +554,7 @@ PROPS = {
                   lambda prog, tier: localfield.run(prog, shared_eff(prog)),
                   lambda prog, tier: strscan.run(prog), lambda prog, tier: strscan.run_advance(prog),
                   lambda prog, tier: rawidx.run(prog),
-                  lambda prog, tier: appendinit.run(prog), lambda prog, tier: appendinit.run_repack(prog),
+                  lambda prog, tier: appendinit.run(prog), lambda prog, tier: appendinit.run_repack(prog), lambda prog, tier: appendinit.run_remap(prog, shared_eff(prog)),
                   lambda prog, tier: counter.run(prog),
                   lambda prog, tier: useb4check.run(prog),
                   lambda prog, tier: norms.run(prog),
@@ -703,7 +703,8 @@ _ADD = {
                          "by the row-length test",
             "explanation": " Shared reader clauses as in C08 (R-RESCAN, R-EXPLICITBND, machine-word sinks); (R-FULLSCAN) the emission loops of the MPS "
                            "writer are exhaustive; (R-ROWFILTER) every record naming a row (RHS, RANGES) is written under the emptiness test that decides "
-                           "the row's declaration in ROWS."},
+                           "the row's declaration in ROWS. (R-REMAP) a function that lowers a dimension of the problem rewrites every array that holds numbers "
+                           "of the shrunk space (the SOS sets the writer prints hold structural column numbers)."},
     "C10": {"technique": "; all-paths constant propagation through the '/' case of the exact literal scanner; flag-state dataflow (set-of-tuples) for "
                          "stores into the raw LP's bounds; machine-word sink census with digit-bound discharge",
             "explanation": " (R-RESCAN) the denominator of p/q is scanned from the same state as the numerator; (R-EXPLICITBND) a bound given in the "
@@ -745,7 +746,8 @@ _ADD = {
                            "section emitter dominates ENDATA; (R-SKIPGATE) after a basis has been loaded (factorok reset, R-FOK) no solve entry "
                            "point answers from the cache of the previous basis."},
     "C16": {"explanation": " (R-STRFLAGS) no string function is applied to a flag array of the problem (a strncpy of intmarker stops at the first "
-                           "continuous column)."},
+                           "continuous column). (R-NZCOUNT) every library function that changes the column counts of the problem's matrix also updates the stored "
+                           "non-zero total (a problem whose total went stale differs observably from its copy, which is rebuilt entry by entry)."},
     "C17": {"technique": "; capacity-governed allocation agreement (governed arrays discovered from their allocation sites); read-but-never-written "
                          "field census; printf-format census; floating-point-derived subscript taint; four-array norm typestate at a basis load; "
                          "index-space typing of subscripts in the raw-to-LP conversion (R-RAWIDX); subscript-space requirement of parameters "
